@@ -27,6 +27,8 @@ class FS:
     kw_only: bool = False
     default: Optional[str] = None  # source text of default, None = required
     factory: Optional[str] = None  # source text of a default_factory (value differs per instance)
+    hash_: Optional[bool] = None  # explicit field(hash=...) (never part of pyoak's notion of comparable)
+    repr_: bool = True
 
     def render(self) -> str:
         opts = []
@@ -40,6 +42,10 @@ class FS:
             opts.append("init=False")
         if self.kw_only:
             opts.append("kw_only=True")
+        if self.hash_ is not None:
+            opts.append(f"hash={self.hash_}")
+        if not self.repr_:
+            opts.append("repr=False")
         if not opts:
             return f"    {self.name}: {self.ann}"
         if opts == [f"default={self.default}"]:
@@ -57,6 +63,7 @@ class CS:
     slots: bool = False
     body: str = ""  # extra methods, already indented by 4
     abstract: bool = False  # never instantiated by generators
+    local: bool = False  # defined inside a function (so __qualname__ != __name__); honoured by the legacy universe
 
 
 BASE_FIELDS = [
@@ -288,7 +295,8 @@ def core_specs(P: str = "U", variant: int = 0) -> list[CS]:
                 FS("ts", "prop", "Tuple[str, ...]", "tstr", default="()"),
                 FS("os", "prop", "Optional[str]", "ostr", default="None"),
                 FS("fs", "prop", "frozenset[int]", "fset", default="frozenset()"),
-                FS("nc", "prop", "str", "str", compare=False, default='""'),
+                FS("nc", "prop", "str", "str", compare=False, default='""', hash_=True),
+                FS("hf", "prop", "int", "int", default="0", hash_=False),
                 FS("ni", "prop", "int", "int", init=False, default="7"),
                 FS("nci", "prop", "int", "int", init=False, compare=False, default="9"),
                 FS("nit", "prop", "tuple[int, ...]", "tint", init=False, default="(1, 2)"),
@@ -343,10 +351,13 @@ def core_specs(P: str = "U", variant: int = 0) -> list[CS]:
             (E,),
             F(
                 FS("target", "child", f"{E} | None", "opt", (E,), default="None"),
-                FS("aside", "child", f"{E} | None", "opt", (E,), compare=False, default="None"),
+                FS("aside", "child", f"{E} | None", "opt", (E,), compare=False, default="None", repr_=False),
                 FS("extras", "child", f"tuple[{E}, ...]", "tuple", (E,), compare=False, default="()"),
             ),
         ),
+        # same child field names, other declaration order and other kinds
+        CS(f"{P}SwapA", (E,), F(FS("first", "child", f"{E} | None", "opt", (E,), default="None"), FS("second", "child", f"tuple[{E}, ...]", "tuple", (E,), default="()"))),
+        CS(f"{P}SwapB", (E,), F(FS("second", "child", f"{E} | None", "opt", (E,), default="None"), FS("first", "child", f"tuple[{E}, ...]", "tuple", (E,), default="()"))),
         CS(
             f"{P}Case",
             (E,),
